@@ -93,6 +93,16 @@ def layouts(ctx):
     out.append(("dotted-stems-extensionless", {"u.json": U, "types.v1.json": T1, "types.v2.json": T2},
                 {"http://x/u": ("example.com/u", "u/gen.go"), "http://x/t1": ("example.com/t1", "t1/gen.go"), "http://x/t2": ("example.com/t2", "t2/gen.go")},
                 [["u.json"]], None))
+    # two mapped ids of which one is a string prefix of the other
+    OR2 = {"$id": "http://x/schemas/order", "type": "object", "properties": {"items": {"type": "array", "items": {"$ref": "order-item.json#/definitions/Item"}}, "n": {"type": "string", "minLength": 1}}, "required": ["n"]}
+    OI2 = {"$id": "http://x/schemas/order-item", "type": "object", "definitions": {"Item": {"type": "object", "properties": {"sku": {"type": "string", "minLength": 2}}, "required": ["sku"]}},
+           "properties": {"first": {"$ref": "#/definitions/Item"}}}
+    out.append(("prefix-ids", {"order.json": OR2, "order-item.json": OI2},
+                {"http://x/schemas/order": ("example.com/order", "order/order.go"), "http://x/schemas/order-item": ("example.com/item", "item/item.go")},
+                [["order.json", "order-item.json"], ["order.json"]], None))
+    out.append(("prefix-ids-reversed-flags", {"order.json": OR2, "order-item.json": OI2},
+                {"http://x/schemas/order-item": ("example.com/item", "item/item.go"), "http://x/schemas/order": ("example.com/order", "order/order.go")},
+                [["order-item.json", "order.json"]], None))
     # ids in the spellings they take in the wild (draft-04 trailing '#', upper-case scheme and host, urn, non-ASCII and spaces, relative), each with mappings keyed by the id as written
     ids = ["http://example.com/schemas/a#", "HTTP://Example.COM/Schemas/B", "urn:example:schemas:c", "http://example.com/sch\u00e9mas/d e", "schemas/e.json", "http://example.com/f?x=1&y=2#frag"][:6]
     ids[5] = "http://example.com/f?x&y#frag"          # (an '=' cannot be part of a --schema-* key)
